@@ -216,6 +216,76 @@ pub open spec fn indexed(pre: Map<Seq<char>, Arc<FileDescriptorProto>>, post: Ma
 '''
 
 
+BUILD = r'''
+// ---- the public way in: Builder (registered sets are what the index is built from) ----
+// the reflection protocol's own descriptor sets, `include_bytes!`-ed constants (A-refl-fds-01: some fixed byte strings)
+pub uninterp spec fn own_fds_v1() -> &'static [u8];
+pub uninterp spec fn own_fds_v1alpha() -> &'static [u8];
+pub mod pb {
+    pub mod v1 { use crate::*; #[verifier::external_body] pub exec const FILE_DESCRIPTOR_SET: &'static [u8] ensures FILE_DESCRIPTOR_SET == own_fds_v1() { &[] } }
+    pub mod v1alpha { use crate::*; #[verifier::external_body] pub exec const FILE_DESCRIPTOR_SET: &'static [u8] ensures FILE_DESCRIPTOR_SET == own_fds_v1alpha() { &[] } }
+}
+// the sets a builder has been given: the decoded-form ones, then the encoded ones, then (unless switched off) the protocol's own
+pub open spec fn builder_encoded<'a>(b: Builder<'a>, own: &'a [u8]) -> Seq<&'a [u8]> { if b.include_reflection_service { b.encoded_file_descriptor_sets@.push(own) } else { b.encoded_file_descriptor_sets@ } }
+pub open spec fn builder_sets<'a>(b: Builder<'a>, own: &'a [u8]) -> Seq<FileDescriptorSet> { all_sets(b.file_descriptor_sets@, builder_encoded(b, own), builder_encoded(b, own).len() as int) }
+pub open spec fn built_from<'a>(st: ReflectionServiceState, b: Builder<'a>, own: &'a [u8]) -> bool {
+    &&& index_ok(st, builder_sets(b, own))
+    &&& covered(st, builder_sets(b, own), builder_sets(b, own).len() as int, 0)
+    &&& !b.use_all_service_names ==> texts(st.service_names@) == texts(b.service_names@)
+}
+'''
+
+
+def svc_mod(u, ver):
+    F = 'tonic-reflection/src/server/%s.rs' % ver
+    u._emit('pub mod %s {\nuse crate::*;' % ver)
+    u.item(F, 'struct', 'ReflectionService')
+    u.raw('impl vstd::std_specs::convert::FromSpecImpl<ReflectionServiceState> for ReflectionService {\n'
+          '    open spec fn obeys_from_spec() -> bool { true }\n'
+          '    open spec fn from_spec(s: ReflectionServiceState) -> Self { ReflectionService { state: Arc { t: s } } }\n}\n'
+          '// A-refl-codegen-01: the generated ServerReflectionServer::new wraps the service it is given (Arc::new + default settings)\n'
+          'pub struct ServerReflectionServer<T> { pub inner: Arc<T> }\n'
+          'impl<T> ServerReflectionServer<T> { #[verifier::external_body] pub fn new(inner: T) -> (r: Self) ensures r.inner.t == inner { unimplemented!() } }')
+    u.fn(F, 'from', within='impl From<ReflectionServiceState> for ReflectionService', header='impl From<ReflectionServiceState> for ReflectionService {', close=True,
+         vacuity=False, display='%s::ReflectionService::from' % ver)
+    u._emit('} // mod %s' % ver)
+
+
+def builder(u):
+    u.item(M, 'struct', 'Builder')
+    u.raw(BUILD)
+    svc_mod(u, 'v1')
+    svc_mod(u, 'v1alpha')
+    W = "impl<'b> Builder<'b>"
+    u._emit(W + ' {'); u._open_header = W + ' {'
+    same = lambda *fs: ' && '.join('r.%s == self.%s' % (f, f) for f in fs)
+    u.fn(M, 'configure', within=W, display='Builder::configure',
+         ensures=[Clause('B0_nothing_registered_yet_own_service_included_all_services_advertised',
+                         'r.file_descriptor_sets@.len() == 0 && r.encoded_file_descriptor_sets@.len() == 0 && r.include_reflection_service && r.service_names@.len() == 0 && r.use_all_service_names')])
+    u.fn(M, 'register_file_descriptor_set', within=W, display='Builder::register_file_descriptor_set',
+         ensures=[Clause('B1_the_set_is_added_after_the_ones_already_registered', 'r.file_descriptor_sets@ == self.file_descriptor_sets@.push(file_descriptor_set)'),
+                  Clause('B1f_nothing_else_changes', same('encoded_file_descriptor_sets', 'include_reflection_service', 'service_names', 'use_all_service_names'))])
+    u.fn(M, 'register_encoded_file_descriptor_set', within=W, display='Builder::register_encoded_file_descriptor_set',
+         ensures=[Clause('B2_the_encoded_set_is_added_after_the_ones_already_registered', 'r.encoded_file_descriptor_sets@ == self.encoded_file_descriptor_sets@.push(encoded_file_descriptor_set)'),
+                  Clause('B2f_nothing_else_changes', same('file_descriptor_sets', 'include_reflection_service', 'service_names', 'use_all_service_names'))])
+    u.fn(M, 'include_reflection_service', within=W, display='Builder::include_reflection_service',
+         ensures=[Clause('B3_the_switch_is_set', 'r.include_reflection_service == include'),
+                  Clause('B3f_nothing_else_changes', same('file_descriptor_sets', 'encoded_file_descriptor_sets', 'service_names', 'use_all_service_names'))])
+    u.fn(M, 'with_service_name', within=W, display='Builder::with_service_name',
+         ensures=[Clause('B4_one_more_chosen_name_and_only_chosen_names_are_advertised',
+                         '!r.use_all_service_names && r.service_names@.len() == self.service_names@.len() + 1 && r.service_names@.take(self.service_names@.len() as int) == self.service_names@'),
+                  Clause('B4f_nothing_else_changes', same('file_descriptor_sets', 'encoded_file_descriptor_sets', 'include_reflection_service'))])
+    for ver in ('v1', 'v1alpha'):
+        own = 'own_fds_%s()' % ver
+        u.fn(M, 'build_' + ver, within=W, display='Builder::build_' + ver,
+             sig_edits=[lambda t, ver=ver: t.sub_code('R12', r'impl %s::ServerReflection' % ver, '%s::ReflectionService' % ver)],
+             ensures=[Clause('B5_the_service_is_built_over_an_index_of_every_registered_set_and_the_protocols_own',
+                             'r matches Ok(svc) ==> built_from(svc.inner.t.state.t, self, %s)' % own),
+                      Clause('B6_an_undecodable_registered_set_is_an_error',
+                             '(exists|k: int| 0 <= k < builder_encoded(self, %s).len() && fds_decode(#[trigger] builder_encoded(self, %s)[k]@) is Err) ==> r is Err' % (own, own))])
+    u.close('}')
+
+
 def idx3(label, decl):
     """`final(self).symbols` is `old(self).symbols` with every name x satisfying `decl` mapped to fd, nothing else touched"""
     return [Clause(label + '_exactly_the_declared_names_are_added', 'r is Ok ==> forall|x: Seq<char>| #[trigger] final(self).symbols@.contains_key(x) <==> (old(self).symbols@.contains_key(x) || %s)' % decl),
@@ -354,4 +424,5 @@ def build():
          ensures=[Clause('Z1_unknown_files_are_not_found', '!self.files@.contains_key(filename@) ==> (r matches Err(st) && st.code == 5)'),
                   Clause('Z2_a_known_file_name_gives_its_descriptor', 'self.files@.contains_key(filename@) ==> match r { Ok(b) => b@ == fd_wire(self.files@[filename@].t), Err(st) => st.code == 13 }')])
     u.close('}')
+    builder(u)
     return u
